@@ -25,10 +25,10 @@ struct St
 } st;
 std::set<const void *> *live_tracked;
 
-enum { P_TASK_BEFORE_CTOR_DONE = 0, P_FINISHED_TRUE, P_FINISHED_FALSE, P_GET_BLOCKED, P_GET_AFTER_FINISHED, P_DESTROY_BEFORE_DONE, P_BURST_GT_256, P_EXEC_ON_OTHER_THREAD, P_EXEC_ON_CALLER, P_REINIT };
+enum { P_TASK_BEFORE_CTOR_DONE = 0, P_FINISHED_TRUE, P_FINISHED_FALSE, P_GET_BLOCKED, P_GET_AFTER_FINISHED, P_DESTROY_BEFORE_DONE, P_BURST_GT_256, P_EXEC_ON_OTHER_THREAD, P_EXEC_ON_CALLER, P_REINIT, P_NESTED_HANDOVER };
 const char *probe_names[] = {"task_started_before_owner_constructor_returned", "finished_polled_true", "finished_polled_false",
                              "get_really_blocked", "get_after_finished_true", "destroy_began_before_task_done", "burst_larger_than_pipe",
-                             "task_ran_on_other_thread", "task_ran_on_calling_thread", "tasking_system_reinitialised_with_tasks_in_flight", nullptr};
+                             "task_ran_on_other_thread", "task_ran_on_calling_thread", "tasking_system_reinitialised_with_tasks_in_flight", "function_hands_over_a_function_and_waits_for_it", nullptr};
 const char *no_faults[] = {nullptr};
 
 void reset()
@@ -86,6 +86,18 @@ void do_plan(int tier)
     plan.reinit_threads = 1 + (int)sim_plan(3);
     sim_probe(P_REINIT);
   }
+  // one function may itself hand over a function and wait for it (needs a tasking thread that is free to run it: the caller
+  // itself when there is no worker, or two workers; a single worker would be the one that waits)
+  {
+    int eff = plan.init_threads;
+    bool can = plan.reinit_threads == 0 &&
+               (lane == LANE_DEBUG || lane == LANE_OMP || (lane == LANE_INTERNAL && (eff == 1 || eff >= 3)) || (lane == LANE_TBB && eff >= 3));
+    if (can && sim_plan(4) == 0) {
+      int which = (int)sim_plan((uint32_t)plan.nitems);
+      plan.items[which].nested = 1;
+      sim_probe(P_NESTED_HANDOVER);
+    }
+  }
   plan.sporadic = 0;
   if (lane != LANE_DEBUG && sim_plan(6) == 0) {
     plan.sporadic = 1 + (int)sim_plan(6);
@@ -115,6 +127,11 @@ void check()
     if (st.created[id] && st.exec_done[id] != 1)
       sim_fail("C02:not-executed-exactly-once", "function %d completed %d times", id, st.exec_done[id]);
   }
+  for (int i = 0; i < plan.nitems; i++) {
+    int cid = C02_MAXITEMS + 2150 + i;
+    if (st.created[cid] && (st.exec[cid] != 1 || st.exec_done[cid] != 1))
+      sim_fail("C02:not-executed-exactly-once", "the function handed over from inside function %d executed %d times", i, st.exec[cid]);
+  }
   for (int i = 0; i < plan.nitems; i++)
     if (plan.items[i].api == C02_ASYNC && !st.delivered[i])
       sim_fail("C02:result-never-delivered", "item %d: no result reached the consumer", i);
@@ -142,8 +159,8 @@ void describe(char *buf, size_t n)
   int k = snprintf(buf, n, "{\"init_threads\": %d, \"reinit_threads\": %d, \"interleave\": %d, \"burst\": %d, \"sporadic_tasks_after_idle\": %d, \"items\": [", plan.init_threads, plan.reinit_threads, plan.interleave, plan.burst, plan.sporadic);
   for (int i = 0; i < plan.nitems && k < (int)n - 300; i++) {
     const C02Item &it = plan.items[i];
-    k += snprintf(buf + k, n - k, "%s{\"api\": \"%s<%s>\", \"task_work\": %d, \"ctor_work\": %d, \"returns_zero_or_empty\": %d, \"script\": [", i ? "," : "", api[it.api],
-                  ty[it.type], it.task_work, it.ctor_work, it.natural);
+    k += snprintf(buf + k, n - k, "%s{\"api\": \"%s<%s>\", \"task_work\": %d, \"ctor_work\": %d, \"returns_zero_or_empty\": %d, \"hands_over_a_function_and_waits\": %d, \"script\": [", i ? "," : "", api[it.api],
+                  ty[it.type], it.task_work, it.ctor_work, it.natural, it.nested);
     for (int a = 0; a < it.nact; a++)
       k += snprintf(buf + k, n - k, "%s\"%s\"", a ? "," : "", an[it.act[a]]);
     k += snprintf(buf + k, n - k, "]}");
